@@ -37,6 +37,15 @@ Theorem C26_narrow_parse_handler_escapes : skel_ok narrow_skel = true /\
 Proof. exact narrow_escapes. Qed.
 Print Assumptions C26_narrow_parse_handler_escapes.
 
+(* parse_all's contract (first list = ALL collected .mo files): when every collected file has a
+   parse error the exit status is the number of files, not the 1 of "No Modelica files" *)
+Theorem C26_every_file_bad (sk : skel) (f : facts) : skel_ok sk = true -> parse_caught sk f ->
+  f_argparse f = AOk -> (f_target f <> TNone -> f_models f <> []) -> usage_count f = 0 ->
+  f_target f <> TCasadi -> f_files f <> [] -> Forall (fun p => bad_file p = true) (f_files f) ->
+  main_with sk f = Exit (length (f_files f)).
+Proof. exact (every_file_bad sk f). Qed.
+Print Assumptions C26_every_file_bad.
+
 (* exit status 0 iff full success *)
 Theorem C26_zero_iff_success (sk : skel) (f : facts) :
   skel_ok sk = true -> parse_caught sk f -> (main_with sk f = Exit 0 <-> full_success f).
